@@ -51,14 +51,14 @@ func c06CheckEscape(ctx *Ctx, res *Result, inputs []string) {
 				Key:        "C06/escape/unsafe-byte",
 				What:       fmt.Sprintf("escapePrintable(%q) = %q contains the byte 0x%02X, which is not printable ASCII, tab or newline", in, impl[i], impl[i][p]),
 				FoundInput: true, Size: 1 + len(in),
-				Replay:     map[string]any{"kind": "escape", "input": hx(in)},
+				Replay: map[string]any{"kind": "escape", "input": hx(in)},
 			})
 		} else if unhx(ans[i]) != impl[i] {
 			res.AddViolation(Violation{
 				Key:        "C06/correspondence/escapePrintable",
 				What:       fmt.Sprintf("escapePrintable(%q) = %q, model %q (both XPrint-only)", in, impl[i], unhx(ans[i])),
 				FoundInput: false, Size: 1 + len(in),
-				Replay:     map[string]any{"kind": "escape", "input": hx(in), "broken": "correspondence escapePrintable = Model.Escape.escape_printable"},
+				Replay: map[string]any{"kind": "escape", "input": hx(in), "broken": "correspondence escapePrintable = Model.Escape.escape_printable"},
 			})
 		}
 		switch {
